@@ -128,7 +128,17 @@ async fn spawn_under_test(kind: &str, client: &Client, topic: &str, tx: mpsc::Un
             let mut p = client.publisher(topic).with_encoder(StringCodec).open().await?;
             tokio::spawn(async move {
                 let mut i = 0u64;
-                loop {
+                let filler = "x".repeat(4096);
+                'outer: loop {
+                    // a few feed()s first: the framed writer then flushes inside poll_ready, so a lost
+                    // connection can surface in any of poll_ready / poll_flush
+                    for _ in 0..3 {
+                        i += 1;
+                        if let Err(e) = p.feed(format!("m{i}:{filler}")).await {
+                            let _ = tx.send(Report::Final(classify(&e)));
+                            break 'outer;
+                        }
+                    }
                     i += 1;
                     match p.send(format!("m{i}")).await {
                         Ok(()) => {
